@@ -314,7 +314,7 @@ class World(object):
         got, exp = describe(x.dtype), self.descr(declared)
         if got != exp:
             if strip_order(got) == strip_order(exp):
-                return "declared order: dtype declares %r, expected %r; dtype=%s" % (
+                return "declared order: dtype declares %r, expected %r [dtype %s]" % (
                     orders_of(got), declared, x.dtype)
             return "field structure: dtype %s described as %r, expected %r" % (x.dtype, got, exp)
         if declared is None:
